@@ -288,6 +288,7 @@ public:
 
     void shift_left_base_member(const std::size_t start_pos,
                                 const std::size_t shift_size) {
+        YK_VERIF(k_store, this, f_bulk, 0);
         memmove(&key_slice_.at(start_pos - shift_size),
                 &key_slice_.at(start_pos),
                 sizeof(key_slice_type) * (key_slice_length - start_pos));
@@ -298,6 +299,7 @@ public:
 
     void shift_right_base_member(const std::size_t start,
                                  const std::size_t shift_size) {
+        YK_VERIF(k_store, this, f_bulk, 0);
         memmove(&key_slice_.at(start + shift_size), &key_slice_.at(start),
                 sizeof(key_slice_type) *
                         (key_slice_length - start - shift_size));
